@@ -3,6 +3,7 @@ Lemmas for Tearfree `_blockify` / `_deblockify` (C06): reshape composition and t
 round trip for parameters with at most one large axis (pure reshapes).
 -/
 import PrecondVerif.Lemmas.Partition
+import Mathlib.Tactic.Ring
 
 namespace PrecondVerif.Shapes
 
@@ -81,5 +82,470 @@ theorem deblockify_blockify_le_one {α} (t : Tensor α) (b : Nat)
   | _ :: _ :: _ =>
     rw [hla] at hle
     simp at hle
+
+
+/-! ### permutations used by the two-large-axes case -/
+
+theorem popAt_getElem? (l : List Nat) (i k : Nat) :
+    (popAt l i)[k]? = if k < i then l[k]? else l[k + 1]? := by
+  unfold popAt
+  by_cases hi : i ≤ l.length
+  · rw [List.getElem?_append]
+    simp only [List.length_take, Nat.min_eq_left hi]
+    split
+    · simp [List.getElem?_take, *]
+    · simp only [List.getElem?_drop]
+      congr 1; omega
+  · have hi' : l.length < i := by omega
+    rw [List.take_of_length_le (by omega), List.drop_of_length_le (by omega)]
+    simp only [List.append_nil]
+    split
+    · rfl
+    · rw [List.getElem?_eq_none (by omega), List.getElem?_eq_none (by omega)]
+
+theorem insertAt_getElem? (l : List Nat) (j x k : Nat) (hj : j ≤ l.length) :
+    (insertAt l j x)[k]? = if k < j then l[k]? else if k = j then some x else l[k - 1]? := by
+  unfold insertAt
+  rw [List.getElem?_append]
+  simp only [List.length_take, Nat.min_eq_left hj]
+  split
+  · simp [List.getElem?_take, *]
+  · rename_i h
+    split
+    · rename_i hkj; subst hkj; simp
+    · rename_i hkj
+      have : k - j = (k - j - 1) + 1 := by omega
+      rw [this, List.getElem?_cons_succ, List.getElem?_drop]
+      congr 1; omega
+
+
+theorem popAt_length (l : List Nat) (i : Nat) (hi : i < l.length) : (popAt l i).length = l.length - 1 := by
+  unfold popAt
+  simp only [List.length_append, List.length_take, List.length_drop]
+  omega
+
+theorem range_getElem? (N k : Nat) : (List.range N)[k]? = if k < N then some k else none := by
+  split
+  · rename_i h; simp [h]
+  · rename_i h; simp [h]
+
+/-- the blockify permutation: move position `r` to position `l+1` -/
+def fwdPerm (N l r : Nat) : List Nat := insertAt (popAt (List.range N) r) (l + 1) r
+/-- the deblockify permutation: move position `l+1` to position `r` -/
+def bwdPerm (N l r : Nat) : List Nat := insertAt (popAt (List.range N) (l + 1)) r (l + 1)
+
+theorem fwdPerm_getElem? (N l r k : Nat) (h1 : l + 1 < r) (h2 : r < N) (hk : k < N) :
+    (fwdPerm N l r)[k]? =
+      some (if k ≤ l then k else if k = l + 1 then r else if k ≤ r then k - 1 else k) := by
+  unfold fwdPerm
+  rw [insertAt_getElem? _ _ _ _ (by rw [popAt_length _ _ (by simpa using h2)]; simp; omega)]
+  simp only [popAt_getElem?, range_getElem?]
+  by_cases c1 : k ≤ l
+  · have : k < l + 1 := by omega
+    have : k < r := by omega
+    simp [*]
+  · by_cases c2 : k = l + 1
+    · subst c2; simp <;> omega
+    · by_cases c3 : k ≤ r
+      · have a1 : ¬ k < l + 1 := by omega
+        have a2 : k - 1 < r := by omega
+        have a3 : k - 1 < N := by omega
+        simp [*]
+      · have a1 : ¬ k < l + 1 := by omega
+        have a2 : ¬ k - 1 < r := by omega
+        have a3 : k - 1 + 1 = k := by omega
+        simp [*]
+
+theorem bwdPerm_getElem? (N l r k : Nat) (h1 : l + 1 < r) (h2 : r < N) (hk : k < N) :
+    (bwdPerm N l r)[k]? =
+      some (if k ≤ l then k else if k < r then k + 1 else if k = r then l + 1 else k) := by
+  unfold bwdPerm
+  rw [insertAt_getElem? _ _ _ _ (by rw [popAt_length _ _ (by simp; omega)]; simp; omega)]
+  simp only [popAt_getElem?, range_getElem?]
+  by_cases c1 : k ≤ l
+  · have : k < r := by omega
+    have : k < l + 1 := by omega
+    simp [*]
+  · by_cases c2 : k < r
+    · have a1 : ¬ k < l + 1 := by omega
+      have a2 : k + 1 < N := by omega
+      simp [*]
+    · by_cases c3 : k = r
+      · subst c3; simp [*]
+      · have a1 : ¬ k - 1 < l + 1 := by omega
+        have a3 : k - 1 + 1 = k := by omega
+        simp [*]
+
+
+theorem insertAt_popAt_perm (l : List Nat) (r j : Nat) (hr : r < l.length) :
+    (insertAt (popAt l r) j l[r]).Perm l := by
+  have h1 : (insertAt (popAt l r) j l[r]).Perm (l[r] :: popAt l r) := by
+    unfold insertAt
+    refine List.perm_middle.trans ?_
+    rw [List.take_append_drop]
+  have h2 : (l[r] :: popAt l r).Perm l := by
+    unfold popAt
+    refine (List.perm_middle (a := l[r]) (l₁ := l.take r) (l₂ := l.drop (r + 1))).symm.trans ?_
+    rw [List.getElem_cons_drop hr, List.take_append_drop]
+  exact h1.trans h2
+
+theorem fwdPerm_nodup (N l r : Nat) (h2 : r < N) : (fwdPerm N l r).Nodup := by
+  have h := insertAt_popAt_perm (List.range N) r (l + 1) (by simpa using h2)
+  simp only [List.getElem_range] at h
+  exact h.nodup_iff.mpr List.nodup_range
+
+theorem bwdPerm_nodup (N l r : Nat) (h1 : l + 1 < r) (h2 : r < N) : (bwdPerm N l r).Nodup := by
+  have h := insertAt_popAt_perm (List.range N) (l + 1) r (by simp; omega)
+  simp only [List.getElem_range] at h
+  exact h.nodup_iff.mpr List.nodup_range
+
+theorem fwdPerm_length (N l r : Nat) (h2 : r < N) : (fwdPerm N l r).length = N := by
+  have h := insertAt_popAt_perm (List.range N) r (l + 1) (by simpa using h2)
+  simp only [List.getElem_range] at h
+  unfold fwdPerm
+  simpa using h.length_eq
+
+theorem bwdPerm_length (N l r : Nat) (h1 : l + 1 < r) (h2 : r < N) : (bwdPerm N l r).length = N := by
+  have h := insertAt_popAt_perm (List.range N) (l + 1) r (by simp; omega)
+  simp only [List.getElem_range] at h
+  unfold bwdPerm
+  simpa using h.length_eq
+
+/-- transposing by a permutation and then by its inverse is the identity -/
+theorem transpose_transpose_eqv {α} (x : Tensor α) (p q : List Nat) (n : Nat)
+    (hn : x.shape.length = n) (hp : p.length = n) (hq : q.length = n)
+    (hpn : p.Nodup) (hqn : q.Nodup)
+    (hA : ∀ k, k < n → ∃ a, q[k]? = some a ∧ p[a]? = some k) :
+    ((x.transpose p).transpose q).Eqv x := by
+  have hshape : ((x.transpose p).transpose q).shape = x.shape := by
+    simp only [Tensor.transpose]
+    apply List.ext_getElem?
+    intro k
+    by_cases hk : k < n
+    · obtain ⟨a, ha1, ha2⟩ := hA k hk
+      have ha : a < p.length := by
+        rcases Nat.lt_or_ge a p.length with h | h
+        · exact h
+        · rw [List.getElem?_eq_none h] at ha2; cases ha2
+      simp only [List.getElem?_map, ha1, Option.map_some]
+      rw [List.getD_eq_getElem?_getD, List.getElem?_map, ha2]
+      simp [List.getD_eq_getElem?_getD, hn, hk]
+    · rw [List.getElem?_eq_none (by simp; omega), List.getElem?_eq_none (by omega)]
+  refine ⟨hshape, ?_⟩
+  intro idx hidx
+  rw [hshape] at hidx
+  have hil : idx.length = n := by rw [inBounds_length hidx, hn]
+  simp only [Tensor.transpose, List.length_map, hp, hn]
+  congr 1
+  apply List.ext_getElem?
+  intro c
+  by_cases hc : c < n
+  · obtain ⟨a, ha1, ha2⟩ := hA c hc
+    have ha : a < p.length := by
+      rcases Nat.lt_or_ge a p.length with h | h
+      · exact h
+      · rw [List.getElem?_eq_none h] at ha2; cases ha2
+    have hcq : c < q.length := by omega
+    have e1 : p.idxOf c = a := by
+      have := hpn.idxOf_getElem a ha
+      rw [List.getElem?_eq_getElem ha] at ha2
+      simp only [Option.some.injEq] at ha2
+      rw [ha2] at this; exact this
+    have e2 : q.idxOf a = c := by
+      have := hqn.idxOf_getElem c hcq
+      rw [List.getElem?_eq_getElem hcq] at ha1
+      simp only [Option.some.injEq] at ha1
+      rw [ha1] at this; exact this
+    have han : a < n := by omega
+    simp [List.getElem?_map, List.getElem?_range, hc, e1, han, e2, List.getD_eq_getElem?_getD, hil]
+  · rw [List.getElem?_eq_none (by simp; omega), List.getElem?_eq_none (by omega)]
+
+
+
+/-! ### the two-large-axes round trip -/
+
+theorem inBounds_iff (s idx : List Nat) :
+    inBounds s idx ↔ idx.length = s.length ∧ ∀ k, k < s.length → idx.getD k 0 < s.getD k 0 := by
+  induction s generalizing idx with
+  | nil => cases idx <;> simp [inBounds]
+  | cons a s ih =>
+    cases idx with
+    | nil => simp [inBounds]
+    | cons i is =>
+      simp only [inBounds, ih, List.length_cons, Nat.add_right_cancel_iff]
+      constructor
+      · rintro ⟨h0, hl, hk⟩
+        refine ⟨hl, ?_⟩
+        intro k hk'
+        cases k with
+        | zero => simpa using h0
+        | succ k => simpa using hk k (by omega)
+      · rintro ⟨hl, hk⟩
+        refine ⟨by simpa using hk 0 (by omega), hl, ?_⟩
+        intro k hk'
+        simpa using hk (k + 1) (by omega)
+
+theorem map_insertAt_popAt (L : List Nat) (r j x : Nat) (f : Nat → Nat) :
+    (insertAt (popAt L r) j x).map f = insertAt (popAt (L.map f) r) j (f x) := by
+  simp [insertAt, popAt, List.map_take, List.map_drop]
+
+theorem popAt_append_cons (A B : List Nat) (x : Nat) : popAt (A ++ x :: B) A.length = A ++ B := by
+  simp [popAt]
+
+theorem insertAt_append (A B : List Nat) (x : Nat) : insertAt (A ++ B) A.length x = A ++ x :: B := by
+  simp [insertAt]
+
+theorem range_map_getD (l : List Nat) : (List.range l.length).map (fun a => l.getD a 0) = l := by
+  apply List.ext_getElem
+  · simp
+  · intro i h1 h2
+    simp at h1
+    simp [List.getD_eq_getElem?_getD, h1]
+
+
+theorem fwdPerm_perm (N l r : Nat) (h2 : r < N) : (fwdPerm N l r).Perm (List.range N) := by
+  have h := insertAt_popAt_perm (List.range N) r (l + 1) (by simpa using h2)
+  simp only [List.getElem_range] at h
+  exact h
+
+theorem bwdPerm_perm (N l r : Nat) (h1 : l + 1 < r) (h2 : r < N) :
+    (bwdPerm N l r).Perm (List.range N) := by
+  have h := insertAt_popAt_perm (List.range N) (l + 1) r (by simp; omega)
+  simp only [List.getElem_range] at h
+  exact h
+
+/-- the index handed to the input of a transpose is in bounds -/
+theorem transpose_index_inBounds {α} (y : Tensor α) (q : List Nat) (n : Nat)
+    (hn : y.shape.length = n) (hq : q.Perm (List.range n)) (i1 : List Nat)
+    (h : inBounds (y.transpose q).shape i1) :
+    inBounds y.shape ((List.range n).map fun a => i1.getD (q.idxOf a) 0) := by
+  rw [inBounds_iff] at h ⊢
+  have hql : q.length = n := by simpa using hq.length_eq
+  simp only [Tensor.transpose, List.length_map] at h
+  refine ⟨by simp [hn], ?_⟩
+  intro k hk
+  rw [hn] at hk
+  have hkq : k ∈ q := hq.mem_iff.mpr (by simpa using hk)
+  have hi : q.idxOf k < q.length := List.idxOf_lt_length_of_mem hkq
+  have h2 := h.2 (q.idxOf k) hi
+  have e : (List.map (fun a => y.shape.getD a 0) q).getD (q.idxOf k) 0 = y.shape.getD k 0 := by
+    rw [List.getD_eq_getElem?_getD, List.getElem?_map, List.getElem?_eq_getElem hi]
+    simp [List.getElem_idxOf hi]
+  rw [e] at h2
+  simpa [List.getD_eq_getElem?_getD, List.getElem?_map, List.getElem?_range, hk] using h2
+
+
+theorem bwd_fwd_inverse (N l r k : Nat) (h1 : l + 1 < r) (h2 : r < N) (hk : k < N) :
+    ∃ a, (bwdPerm N l r)[k]? = some a ∧ (fwdPerm N l r)[a]? = some k := by
+  by_cases c1 : k ≤ l
+  · refine ⟨k, ?_, ?_⟩
+    · rw [bwdPerm_getElem? N l r k h1 h2 hk]; simp [c1]
+    · rw [fwdPerm_getElem? N l r k h1 h2 hk]; simp [c1]
+  · by_cases c2 : k < r
+    · refine ⟨k + 1, ?_, ?_⟩
+      · rw [bwdPerm_getElem? N l r k h1 h2 hk]; simp [c1, c2]
+      · rw [fwdPerm_getElem? N l r (k + 1) h1 h2 (by omega)]
+        have a1 : ¬ k + 1 ≤ l := by omega
+        have a2 : ¬ k + 1 = l + 1 := by omega
+        have a3 : k + 1 ≤ r := by omega
+        simp [a1, a2, a3] <;> omega
+    · by_cases c3 : k = r
+      · refine ⟨l + 1, ?_, ?_⟩
+        · rw [bwdPerm_getElem? N l r k h1 h2 hk]; simp [c1, c2, c3] <;> omega
+        · rw [fwdPerm_getElem? N l r (l + 1) h1 h2 (by omega)]; simp [c3]
+      · refine ⟨k, ?_, ?_⟩
+        · rw [bwdPerm_getElem? N l r k h1 h2 hk]; simp [c1, c2, c3]
+        · rw [fwdPerm_getElem? N l r k h1 h2 hk]
+          have a2 : ¬ k = l + 1 := by omega
+          have a3 : ¬ k ≤ r := by omega
+          simp [c1, a2, a3]
+
+theorem fwdPerm_map_shape (bef mid aft : List Nat) (lB rB bs : Nat) :
+    (fwdPerm (bef ++ [lB, bs] ++ mid ++ [rB, bs] ++ aft).length bef.length
+        (bef.length + 2 + mid.length)).map
+      (fun a => (bef ++ [lB, bs] ++ mid ++ [rB, bs] ++ aft).getD a 0) =
+    bef ++ [lB, rB] ++ ([bs] ++ mid ++ [bs] ++ aft) := by
+  unfold fwdPerm
+  rw [map_insertAt_popAt, range_map_getD]
+  have e1 : bef ++ [lB, bs] ++ mid ++ [rB, bs] ++ aft = (bef ++ [lB, bs] ++ mid) ++ rB :: (bs :: aft) := by
+    simp
+  have hl : (bef ++ [lB, bs] ++ mid).length = bef.length + 2 + mid.length := by simp; omega
+  have e2 : (bef ++ [lB, bs] ++ mid ++ [rB, bs] ++ aft).getD (bef.length + 2 + mid.length) 0 = rB := by
+    rw [e1, ← hl, List.getD_eq_getElem?_getD]; simp
+  rw [e2]
+  conv_lhs => rw [e1, ← hl, popAt_append_cons]
+  have e3 : bef ++ [lB, bs] ++ mid ++ bs :: aft = (bef ++ [lB]) ++ (bs :: mid ++ bs :: aft) := by simp
+  have hl2 : (bef ++ [lB]).length = bef.length + 1 := by simp
+  rw [e3, ← hl2, insertAt_append]
+  simp
+
+theorem blockifyTwo_roundtrip {α} (t : Tensor α) (bef mid aft : List Nat) (lB rB bs : Nat)
+    (hshape : t.shape = bef ++ (lB * bs) :: mid ++ (rB * bs) :: aft) :
+    (deblockifyTwo (blockifyTwo t bef mid aft lB rB bs (lB * rB)) bef.length
+      (bef.length + 1 + mid.length) [lB, rB] t.shape).Eqv t := by
+  -- names
+  obtain ⟨SS, hSS⟩ : ∃ SS, SS = bef ++ [lB, bs] ++ mid ++ [rB, bs] ++ aft := ⟨_, rfl⟩
+  obtain ⟨NS, hNS⟩ : ∃ NS, NS = bef ++ [lB * rB, bs] ++ mid ++ [bs] ++ aft := ⟨_, rfl⟩
+  have hN : SS.length = bef.length + mid.length + aft.length + 4 := by subst hSS; simp; omega
+  have hr : bef.length + 2 + mid.length < SS.length := by omega
+  obtain ⟨p, hp⟩ : ∃ p, p = fwdPerm SS.length bef.length (bef.length + 2 + mid.length) := ⟨_, rfl⟩
+  obtain ⟨q, hq⟩ : ∃ q, q = bwdPerm SS.length bef.length (bef.length + 2 + mid.length) := ⟨_, rfl⟩
+  obtain ⟨x, hx⟩ : ∃ x, x = t.reshape SS := ⟨_, rfl⟩
+  obtain ⟨y, hy⟩ : ∃ y, y = x.transpose p := ⟨_, rfl⟩
+  have hxs : x.shape = SS := by subst hx; rfl
+  have hys : y.shape = bef ++ [lB, rB] ++ ([bs] ++ mid ++ [bs] ++ aft) := by
+    subst hy hp
+    simp only [Tensor.transpose, hxs]
+    subst hSS
+    exact fwdPerm_map_shape bef mid aft lB rB bs
+  have hyl : y.shape.length = SS.length := by rw [hys, hN]; simp; omega
+  -- element counts
+  have hpSS : prod SS = prod t.shape := by
+    subst hSS; rw [hshape]
+    simp only [prod_append, prod_cons, prod_nil]
+    simp only [Nat.mul_one, Nat.mul_assoc]
+  have hpNS : prod NS = prod y.shape := by
+    subst hNS; rw [hys]
+    simp only [prod_append, prod_cons, prod_nil]
+    ring
+  -- the blockified tensor and what deblockify computes from it
+  have hb : blockifyTwo t bef mid aft lB rB bs (lB * rB) = y.reshape NS := by
+    subst hy hx hp hSS hNS; rfl
+  have hzs : (y.reshape NS).shape = NS := rfl
+  have htake : NS.take bef.length = bef := by subst hNS; simp
+  have hdrop : NS.drop (bef.length + 1) = [bs] ++ mid ++ [bs] ++ aft := by
+    subst hNS
+    have : bef ++ [lB * rB, bs] ++ mid ++ [bs] ++ aft = (bef ++ [lB * rB]) ++ ([bs] ++ mid ++ [bs] ++ aft) := by
+      simp
+    have hl : (bef ++ [lB * rB]).length = bef.length + 1 := by simp
+    rw [this, ← hl, List.drop_left']
+    rfl
+  -- deblockify side
+  have hd : deblockifyTwo (y.reshape NS) bef.length (bef.length + 1 + mid.length) [lB, rB] t.shape =
+      (((y.reshape NS).reshape y.shape).transpose q).reshape t.shape := by
+    unfold deblockifyTwo
+    simp only [hzs, htake, hdrop]
+    have e : bef ++ [lB, rB] ++ ([bs] ++ mid ++ [bs] ++ aft) = y.shape := hys.symm
+    rw [e]
+    have e2 : ((y.reshape NS).reshape y.shape).shape.length = SS.length := hyl
+    simp only [e2]
+    have e3 : bef.length + 1 + mid.length + 1 = bef.length + 2 + mid.length := by omega
+    rw [e3, hq]
+    rfl
+  rw [hb, hd]
+  -- now compute
+  have hperm_p : p.Perm (List.range SS.length) := hp ▸ fwdPerm_perm _ _ _ hr
+  have hperm_q : q.Perm (List.range SS.length) := hq ▸ bwdPerm_perm _ _ _ (by omega) hr
+  have hTT := transpose_transpose_eqv x p q SS.length (by rw [hxs])
+    (by simpa using hperm_p.length_eq) (by simpa using hperm_q.length_eq)
+    (hperm_p.nodup_iff.mpr List.nodup_range) (hperm_q.nodup_iff.mpr List.nodup_range)
+    (by
+      intro k hk
+      rw [hp, hq]
+      exact bwd_fwd_inverse _ _ _ k (by omega) hr hk)
+  rw [← hy] at hTT
+  -- shapes
+  have hTq : (((y.reshape NS).reshape y.shape).transpose q).shape = SS := by
+    have : (((y.reshape NS).reshape y.shape).transpose q).shape = (y.transpose q).shape := rfl
+    rw [this, hTT.1, hxs]
+  refine ⟨rfl, ?_⟩
+  intro idx hidx
+  have hidx' : inBounds t.shape idx := hidx
+  have hlt : ravel t.shape idx < prod SS := hpSS ▸ ravel_lt t.shape idx hidx'
+  -- index seen by the outer transpose
+  obtain ⟨i1, hi1⟩ : ∃ i1, i1 = unravel SS (ravel t.shape idx) := ⟨_, rfl⟩
+  have hi1b : inBounds SS i1 := hi1 ▸ unravel_inBounds SS _ hlt
+  have hi1b' : inBounds (y.transpose q).shape i1 := by rw [hTT.1, hxs]; exact hi1b
+  have hi2b := transpose_index_inBounds y q SS.length hyl hperm_q i1 hi1b'
+  show ((((y.reshape NS).reshape y.shape).transpose q).reshape t.shape).get idx = t.get idx
+  simp only [Tensor.reshape]
+  show (((y.reshape NS).reshape y.shape).transpose q).get
+      (unravel (((y.reshape NS).reshape y.shape).transpose q).shape (ravel t.shape idx)) = t.get idx
+  rw [hTq, ← hi1]
+  -- through the transpose and the two reshapes
+  have step1 : (((y.reshape NS).reshape y.shape).transpose q).get i1 =
+      ((y.reshape NS).reshape y.shape).get ((List.range SS.length).map fun a => i1.getD (q.idxOf a) 0) := by
+    simp only [Tensor.transpose]
+    rw [show ((y.reshape NS).reshape y.shape).shape.length = SS.length from hyl]
+  have step2 := (reshape_back_eqv y NS hpNS).2 _ hi2b
+  have step3 : y.get ((List.range SS.length).map fun a => i1.getD (q.idxOf a) 0) =
+      (y.transpose q).get i1 := by
+    simp only [Tensor.transpose]
+    rw [hyl]
+  have step4 := hTT.2 i1 hi1b'
+  rw [step1, step2, step3, step4, hx]
+  simp only [Tensor.reshape]
+  rw [hi1, ravel_unravel SS _ hlt, unravel_ravel t.shape idx hidx']
+
+theorem list_split_at (L : List Nat) (k : Nat) (hk : k < L.length) :
+    L = L.take k ++ L.getD k 0 :: L.drop (k + 1) := by
+  rw [List.getD_eq_getElem?_getD, List.getElem?_eq_getElem hk, Option.getD_some,
+    List.getElem_cons_drop hk, List.take_append_drop]
+
+theorem list_split_two (S : List Nat) (a c : Nat) (hac : a < c) (hc : c < S.length) :
+    S = S.take a ++ S.getD a 0 :: (S.drop (a + 1)).take (c - a - 1) ++ S.getD c 0 :: S.drop (c + 1) := by
+  have ha : a < S.length := by omega
+  have h1 := list_split_at S a ha
+  have hc' : c - a - 1 < (S.drop (a + 1)).length := by simp; omega
+  have h2 := list_split_at (S.drop (a + 1)) (c - a - 1) hc'
+  have e1 : (S.drop (a + 1)).getD (c - a - 1) 0 = S.getD c 0 := by
+    simp only [List.getD_eq_getElem?_getD, List.getElem?_drop]
+    congr 2; omega
+  have e2 : (S.drop (a + 1)).drop (c - a - 1 + 1) = S.drop (c + 1) := by
+    rw [List.drop_drop]; congr 1; omega
+  rw [e1, e2] at h2
+  conv_lhs => rw [h1, h2]
+  simp
+
+/-- `_deblockify ∘ _blockify` is the identity for every parameter Tearfree Shampoo accepts
+(at most two large axes, each a multiple of the block size). -/
+theorem deblockify_blockify_eqv {α} (t : Tensor α) (b : Nat)
+    (hle : (blocksMetadata b t.shape).largeAxes.length ≤ 2)
+    (hdiv : ∀ a ∈ (blocksMetadata b t.shape).largeAxes, b ∣ t.shape.getD a 0) :
+    (deblockify (blockify t (blocksMetadata b t.shape)) (blocksMetadata b t.shape)).Eqv t := by
+  match hla : (blocksMetadata b t.shape).largeAxes with
+  | [] => exact deblockify_blockify_le_one t b (by rw [hla]; simp) hdiv
+  | [a] => exact deblockify_blockify_le_one t b (by rw [hla]; simp) hdiv
+  | [a, c] =>
+    have hsorted : List.Pairwise (· < ·) (blocksMetadata b t.shape).largeAxes :=
+      List.Pairwise.filter _ List.pairwise_lt_range
+    rw [hla] at hsorted
+    have hac : a < c := by simpa using hsorted
+    have hc : c < t.shape.length := by
+      have : c ∈ (blocksMetadata b t.shape).largeAxes := by rw [hla]; simp
+      simp only [blocksMetadata, List.mem_filter, List.mem_range] at this
+      exact this.1
+    have hda : b ∣ t.shape.getD a 0 := hdiv a (by rw [hla]; simp)
+    have hdc : b ∣ t.shape.getD c 0 := hdiv c (by rw [hla]; simp)
+    have hbpl : (blocksMetadata b t.shape).blocksPerLargeAxis =
+        [t.shape.getD a 0 / b, t.shape.getD c 0 / b] := by
+      show ((blocksMetadata b t.shape).largeAxes.map fun i => t.shape.getD i 0 / b) = _
+      rw [hla]; rfl
+    have hnb : (blocksMetadata b t.shape).numBlocks = t.shape.getD a 0 / b * (t.shape.getD c 0 / b) := by
+      show prod (blocksMetadata b t.shape).blocksPerLargeAxis = _
+      rw [hbpl]; simp
+    have hba : (blocksMetadata b t.shape).blocksAxis = a := by
+      show (blocksMetadata b t.shape).largeAxes.headD 0 = a
+      rw [hla]; rfl
+    have hlb : (blocksMetadata b t.shape).largeBlockSize = b := rfl
+    have hps : (blocksMetadata b t.shape).paramShape = t.shape := rfl
+    have hsplit := list_split_two t.shape a c hac hc
+    have hbefl : (t.shape.take a).length = a := by simp; omega
+    have hmidl : ((t.shape.drop (a + 1)).take (c - a - 1)).length = c - a - 1 := by simp; omega
+    have hshape : t.shape = t.shape.take a ++ (t.shape.getD a 0 / b * b) ::
+        (t.shape.drop (a + 1)).take (c - a - 1) ++ (t.shape.getD c 0 / b * b) :: t.shape.drop (c + 1) := by
+      rw [Nat.div_mul_cancel hda, Nat.div_mul_cancel hdc]; exact hsplit
+    have hrt := blockifyTwo_roundtrip t (t.shape.take a) ((t.shape.drop (a + 1)).take (c - a - 1))
+      (t.shape.drop (c + 1)) (t.shape.getD a 0 / b) (t.shape.getD c 0 / b) b hshape
+    rw [hbefl, hmidl] at hrt
+    have hcc : a + 1 + (c - a - 1) = c := by omega
+    rw [hcc] at hrt
+    unfold blockify deblockify
+    simp only [hla, hbpl, hnb, hba, hlb, hps]
+    simpa using hrt
+  | _ :: _ :: _ :: _ =>
+    rw [hla] at hle
+    simp at hle
+
 
 end PrecondVerif.Shapes
